@@ -179,6 +179,8 @@ def to_text(t):
         return "leaf %d %d" % (t[1], t[2])
     if k == "leafref":
         return "leafref %d" % t[1]
+    if k == "leafv":            # by-value leaf: the model's leaf (values are what is compared for these cases)
+        return "leaf %d 0" % t[1]
     if k == "mem":
         return "mem %d %d %d %s" % (t[1], 500 + t[1], len(t[2]), " ".join(t[2]))
     if k == "bind":
@@ -212,6 +214,8 @@ def to_cpp(t):
         return "Leaf{%d, %s}" % (t[1], "true" if t[2] else "false")
     if k == "leafref":
         return "LeafRef{%d}" % t[1]
+    if k == "leafv":
+        return "LeafV{%d}" % t[1]
     if k == "mem":
         cst = "c" if (len(t) > 4 and t[4]) else ""      # a const member function (other mem_fun overload)
         if len(t) > 3 and t[3]:      # a method inherited from the non-trackable base NB
@@ -262,6 +266,12 @@ def rvalue_ok(t):
     if t[0] in ("slot", "retype") and any(ty == "O" and not c for ty, c in t[2]):
         return False
     return all(rvalue_ok(x) for x in t[1:] if isinstance(x, tuple))
+
+
+def has_leafv(t):
+    if t[0] == "leafv":
+        return True
+    return any(has_leafv(x) for x in t[1:] if isinstance(x, tuple))
 
 
 def depth_of(t):
